@@ -21,7 +21,7 @@ NS_NAME = core.NAMESERVER_NAME
 NO_NUL = [(1, 0xD7FF), (0xE000, 0x10FFFF)]      # every code point except NUL (sqlite treats text as NUL-terminated in LIKE)
 URIS = ["PYRO:obj1@host:1", "PYRO:obj2@host:2", "PYRO:Pyro.NameServer@host:9090"]
 TAGSETS = [(), ("t1",), ("t1", "t2")]
-REGEXES = ["a.", "ab", "[", ".*", "A"]
+REGEXES = ["a.", "ab", "[", ".*", "A", "ab?", "aB|zz", "a{0}b", "(?:x)?a"]
 OPS = ["register", "remove_name", "remove_prefix", "remove_regex", "set_metadata", "lookup", "lookup_meta", "list_all",
        "list_prefix", "list_regex", "yp_all", "yp_any", "count"]
 
@@ -112,8 +112,7 @@ def make_sql(S, entries):
             db.seen.append(n)
             for t in tags:
                 db.metadata.append((i + 1, t))
-        st = nameserver.SqlStorage.__new__(nameserver.SqlStorage)
-        st.dbfile = "model"
+        st = nameserver.SqlStorage("model")       # the real constructor, on the modelled database (the schema exists)
         return st, None
     fd, path = tempfile.mkstemp(prefix="c14-", suffix=".sqlite")
     os.close(fd)
@@ -369,6 +368,68 @@ def h_step(S, B):
                 pass
 
 
+HIST_OPS = ["register", "remove_name", "remove_prefix", "remove_regex", "set_metadata", "lookup_meta", "list_prefix", "count"]
+
+
+def h_history(S, B):
+    """a short history of operations with concrete arguments on both back-ends and the reference map: every answer and the
+    state after every step agree, and at the end the sqlite file, reopened by a fresh SqlStorage, holds the same map (so
+    state kept outside the database -- a cache, say -- cannot stand in for it)"""
+    pool = B["POOL"]
+    entries = [(NS_NAME, URIS[2], ())]
+    for i, n in enumerate(pool):
+        if S.flag("present%d" % i):
+            entries.append((n, URIS[i % 2], ("t1",)))
+    ref = {n: (u, frozenset(t)) for n, u, t in entries}
+    mem = nameserver.MemoryStorage()
+    for n, u, t in entries:
+        mem[n] = (u, set(t))
+    ns_mem = nameserver.NameServer(mem)
+    sql, path = make_sql(S, entries)
+    ns_sql = nameserver.NameServer(sql)
+    if S.symbolic:
+        sqlmodel.DB[0].executes = 0
+        sqlmodel.DB[0].fail_at = None
+    try:
+        for step in range(B["STEPS"]):
+            op = S.choice("op%d" % step, B["OPS"])
+            a = {"name": None, "prefix": "a", "regex": "a.", "uri": URIS[0], "safe": False, "tags": ()}
+            if op in ("register", "remove_name", "set_metadata", "lookup_meta"):
+                a["name"] = S.choice("name%d" % step, pool)
+            if op == "register":
+                a["uri"] = URIS[1]
+                a["tags"] = S.choice("tags%d" % step, [(), ("t2",)])
+            if op == "set_metadata":
+                a["tags"] = S.choice("tags%d" % step, [(), ("t2",)])
+            r_ref = outcome(lambda: ref_apply(S, ref, op, a))
+            r_mem = outcome(lambda: run_op(ns_mem, op, a))
+            r_sql = outcome(lambda: run_op(ns_sql, op, a))
+            S.cover("hist:" + op)
+            S.check("history: memory-backend-answers-like-the-map", r_mem[0] == r_ref[0] and canon(r_mem[1]) == canon(r_ref[1]))
+            S.check("history: sqlite-backend-answers-like-the-map", r_sql[0] == r_ref[0] and canon(r_sql[1]) == canon(r_ref[1]))
+            S.check("history: memory-backend-holds-the-map", {n: (u, frozenset(m)) for n, (u, m) in mem.items()} == ref)
+            S.check("history: sqlite-backend-holds-the-map", sql_contents(S, sql) == ref)
+        # reopen the database
+        if S.symbolic:
+            again = nameserver.SqlStorage("model")
+        else:
+            again = nameserver.SqlStorage(path)
+        reopened = {n: (u, frozenset(m)) for n, (u, m) in again.everything(return_metadata=True).items()}
+        S.check("history: reopened-sqlite-database-holds-the-map", reopened == ref)
+        # and the live server still answers from that map for every name of the pool
+        for n in pool:
+            r1 = outcome(lambda: ns_sql.lookup(n, return_metadata=True))
+            r0 = outcome(lambda: ref_apply(S, ref, "lookup_meta", {"name": n, "prefix": None, "regex": None, "uri": None, "safe": False, "tags": ()}))
+            S.check("history: final-lookups-answer-from-the-map", r1[0] == r0[0] and canon(r1[1]) == canon(r0[1]))
+        S.observe("final", sorted(ref.keys()))
+    finally:
+        if path is not None:
+            try:
+                os.unlink(path)
+            except OSError:
+                pass
+
+
 def is_ascii_letter(S, ch):
     if S.symbolic:
         from pysym.strings import StrVec
@@ -398,4 +459,9 @@ SPECS = [
                                             "check:sqlite-backend-state-equals-the-reference-map"],
          native_patch=env.native_env, reset=_reset,
          desc="one name server operation (13 kinds) from every pre-state over the stored-name pool (each name present or not, three tag sets) plus the server's own entry; symbolic name (any code points) / prefix argument; regexes and tag queries from lists; the index of a failing sqlite statement is a choice; memory back-end, sqlite back-end and reference dict compared"),
+    Spec("history", h_history,
+         {"quick": {"POOL": ["ab", "aB"], "STEPS": 3, "OPS": HIST_OPS}, "thorough": {"POOL": ["ab", "aB"], "STEPS": 4, "OPS": HIST_OPS}},
+         covers=["hist:" + o for o in HIST_OPS] + ["check:history: reopened-sqlite-database-holds-the-map"],
+         native_patch=env.native_env, reset=_reset,
+         desc="every history of STEPS operations (8 kinds, names from the pool, two tag sets) from every pre-state over the pool: answers and contents of memory back-end, sqlite back-end and reference map agree after every step, the reopened sqlite database holds the map, final lookups answer from it"),
 ]
